@@ -31,6 +31,8 @@ type queueCase struct {
 	OpsEach int    `json:"ops_each,omitempty"`
 	Procs   int    `json:"gomaxprocs,omitempty"`
 	Seed    uint64 `json:"seed,omitempty"`
+	// oldservice: the queue's (exported) index of the next message before the run
+	StartIndex int64 `json:"next_index_before_the_run,omitempty"`
 }
 
 // qmsg is the message with identity id: every field of it is set, and set to
@@ -266,6 +268,84 @@ func execQueueVeryLong(c *child.Ctx, k queueCase, cj []byte) {
 	}
 	c.Count("very_long_run_additions", int64(k.Adds))
 	c.Count("very_long_run_snapshots_compared", int64(snaps))
+}
+
+// execQueueOldService: a queue that has been in service for 2^31, 2^32, 2^53 ...
+// additions.  Nobody can wait for that many; the index of the next message is an
+// exported, documented field of the queue, so the state "empty queue, index N" - what
+// a long-lived queue looks like after a restart of its contents - is set up directly
+// on a new queue, and then the ordinary run follows: every snapshot the last min(N,
+// added) messages in order, never more than the capacity.
+func execQueueOldService(c *child.Ctx, k queueCase, cj []byte) {
+	q := circularQueue.NewCircularQueue(k.Cap)
+	q.Lock()
+	q.NextIndex = int(k.StartIndex)
+	q.Unlock()
+	if int64(int(k.StartIndex)) != k.StartIndex {
+		return // does not fit an int on this platform
+	}
+	for i := 1; i <= k.Adds; i++ {
+		q.Add(qmsg(i - 1))
+		got := q.GetMessages()
+		want := k.Cap
+		if i < want {
+			want = i
+		}
+		ok := len(got) == want
+		for j := 0; ok && j < len(got); j++ {
+			if qid(got[j]) != i-want+j || !sameMsg(got[j]) {
+				ok = false
+			}
+		}
+		if !ok {
+			c.Violate("snapshot-wrong", fmt.Sprintf("capacity %d, index of the next message %d before the run, after %d additions: snapshot %v, expected the last %d in order%s", k.Cap, k.StartIndex, i, ids(got), want, alteredText()), cj)
+			return
+		}
+		if n := sizeUnderLock(q); n > k.Cap {
+			c.Violate("holds-more-than-capacity", fmt.Sprintf("capacity %d queue (index of the next message %d before the run) holds %d items after %d additions", k.Cap, k.StartIndex, n, i), cj)
+			return
+		}
+	}
+	c.Count("additions_to_queues_long_in_service", int64(k.Adds))
+}
+
+// execQueueFirstAdds: two or three adders whose very first additions to a brand-new
+// queue happen at the same moment, thousands of new queues: once they have returned,
+// a snapshot holds all their messages (the capacity allows it).
+func execQueueFirstAdds(c *child.Ctx, k queueCase, cj []byte) {
+	for trial := 0; trial < k.Adds; trial++ {
+		q := circularQueue.NewCircularQueue(k.Cap)
+		var wg sync.WaitGroup
+		var ready, goNow int32
+		for a := 0; a < k.Adders; a++ {
+			wg.Add(1)
+			go func(a int) {
+				defer wg.Done()
+				atomic.AddInt32(&ready, 1)
+				for atomic.LoadInt32(&goNow) == 0 {
+				}
+				q.Add(qmsg(a))
+			}(a)
+		}
+		for atomic.LoadInt32(&ready) < int32(k.Adders) {
+			runtime.Gosched()
+		}
+		atomic.StoreInt32(&goNow, 1)
+		wg.Wait()
+		got := q.GetMessages()
+		seen := map[int]bool{}
+		for _, m := range got {
+			seen[qid(m)] = true
+		}
+		if len(got) != k.Adders || len(seen) != k.Adders {
+			c.Violate("snapshot-wrong", fmt.Sprintf("a new queue of capacity %d was given its first %d messages by %d adders at the same moment; after all of them had returned the snapshot holds %v (new queue number %d)", k.Cap, k.Adders, k.Adders, ids(got), trial+1), cj)
+			return
+		}
+		if trial%256 == 0 {
+			tick()
+		}
+	}
+	c.Count("new_queues_whose_first_additions_were_simultaneous", int64(k.Adds))
 }
 
 // execQueuesSideBySide: several queues in one process (the proxy keeps one, a program
@@ -623,6 +703,10 @@ func monC18(c *child.Ctx, replay json.RawMessage) {
 			execQueueHeldLock(c, k, replay)
 		case "verylong":
 			execQueueVeryLong(c, k, replay)
+		case "oldservice":
+			execQueueOldService(c, k, replay)
+		case "firstadds":
+			execQueueFirstAdds(c, k, replay)
 		case "sidebyside":
 			for i := 0; i < 10 && c.NViolations() == 0; i++ {
 				execQueuesSideBySide(c, k, replay)
@@ -711,6 +795,24 @@ func monC18(c *child.Ctx, replay json.RawMessage) {
 		if !runInPlainProcess(c, cj, fmt.Sprintf("a run of %d additions to a queue of capacity %d", k.Adds, k.Cap)) {
 			execQueueVeryLong(c, k, cj)
 		}
+		c.Eval(ref.Hash64(cj), true)
+	}
+	// (2e) queues long in service, and brand-new queues with simultaneous first additions
+	for i, si := range []int64{1<<31 - 5, 1<<32 - 5, 1<<31 - 1, 1<<24 - 3, 1<<16 - 2, 1<<53 - 4, 1<<62 - 9, 1<<15 - 1} {
+		if i%c.NBatch != c.Batch {
+			continue
+		}
+		for _, capN := range []int{1, 3, 8, 20} {
+			k := queueCase{Kind: "oldservice", Cap: capN, Adds: 60, StartIndex: si}
+			cj := c.BeginV(k)
+			execQueueOldService(c, k, cj)
+			c.Eval(ref.Hash64(cj), true)
+		}
+	}
+	{
+		k := queueCase{Kind: "firstadds", Cap: []int{3, 4, 8, 20}[r.Intn(4)], Adders: 2 + c.Batch%2, Adds: c.Pick(6000, 60000)}
+		cj := c.BeginV(k)
+		execQueueFirstAdds(c, k, cj)
 		c.Eval(ref.Hash64(cj), true)
 	}
 	// (2c) several queues at the same time, one goroutine each
